@@ -77,6 +77,28 @@ CLAIMED = {
             "the integral is compared with the exact rational sum over uncovered cells (oracle) and with the Lean model's integral and "
             "specification on mixed-size, partially refined, anisotropic meshes for every limit and volfrac setting.",
             "Floating-point summation compared at rtol 1e-9; the lifting of mask_correct to the sum over boxes and levels is checked by the driver's spec/model agreement, not yet a theorem."),
+    "C11": ("Lean 4 theorem on the record-level chef model + differential correspondence check with independent recipe evaluation",
+            "Proof: Writers.chef_data (entry i of chef's level header points at a record that is box i = kept components then the recipe's, for "
+            "any input layout; disk-order visiting via assemble_data_ord / goodOrder_offset); outputs parsed by the oracle, tasted, every "
+            "component compared under its own name with the recipe evaluated independently (Cantera per cell for the built-ins), kept fields "
+            "bit for bit, min/max rows with the written extrema, layout offset for offset with the model; serial and pool modes.",
+            "The recipe is a parameter of the theorem; Cantera and numpy min/max are exercised on the real code only."),
+    "C17": ("Lean 4 theorem on the record-level chk2plt model + differential correspondence check on synthetic checkpoints",
+            "Proof: Writers.chk_data (each output record is box i's interior state components followed by that box's own gradp and I_R "
+            "components, for independent layouts of every data subset), the regenerated state-vector tables (state_layout, "
+            "output_names_match_state_order); outputs parsed by the oracle, tasted with box coordinates, compared with the checkpoint's "
+            "interior values, and the checkpoint tree is hashed before and after.",
+            "Ghost stripping and flooring are numpy slicing/division, compared on the real output; one known finding (integral time values)."),
+    "C18": ("Lean 4 theorem on the two-column table layout + stdout round-trip correspondence check",
+            "Proof: MenuR.shown_covers (the repaired two-column table shows every field exactly once, all n) and the pinned counterexample; "
+            "stdout of minuterie and of every menu mode is parsed back and compared with the header tables (oracle) and the layout model; "
+            "marinated readers are unpickled and compared with a fresh reader.",
+            "Formatting to 3 significant digits, regular-expression classification and pickle are parameters exercised on the real code."),
+    "C19": ("Lean 4 theorems on point-to-index conversion + executable matching model as correspondence check",
+            "Proof: Point.pointIdxR_centre / pointLocal_centre (the centre of cell i maps to local index i - lo for any origin and cell size) and "
+            "pointIdxP_wrong (the pinned formula is wrong for every non-zero origin); sampled interior cell centres are queried and compared "
+            "with the stored values and with the Lean matching model (single-box case, box, local index).",
+            "scipy map_coordinates at integer indices is a parameter; only CASE 1 (single box) is in the property and the model."),
 }
 
 NOT_YET = {}
